@@ -589,3 +589,4 @@ def replay(case):
         ctx.close()
 
 MANIFEST['text'] += ' Modification times at and before the epoch and in the future, and a date far ahead of the clock, are part of the conditional layer.'
+MANIFEST['text'] += ' Lists with blanks around their commas are answered like their canonical spelling; a handler that lets another application serve a sub-request before static_file is a layer of its own.'
